@@ -57,6 +57,10 @@ pub struct Shape {
     pub cache: usize,
     /// statements of open sessions are spread between the other steps (checkpoints and autocommit statements happen while transactions are open)
     pub interleave: bool,
+    /// DDL in the middle of the history: CREATE UNIQUE INDEX on the populated table, a second table
+    pub ddl: bool,
+    /// C02 signatures stay exact although the shape is dirty for C01 / C08
+    pub clean_c02: bool,
 }
 
 fn payload(r: &mut Rng, sizes: &[usize]) -> String {
@@ -67,6 +71,45 @@ fn payload(r: &mut Rng, sizes: &[usize]) -> String {
 
 pub fn gen_history(r: &mut Rng, sh: &Shape) -> Vec<Act> {
     let mut acts = vec![];
+    if sh.name == "steal-and-rollback" {
+        // a six-page cache and a read-only wide table: scanning it between the statements of a session pushes the
+        // session's dirty page out to the data file (steal) before the session ends
+        let scan = || Act::Auto("SELECT a, b FROM u".into(), vec![], vec![]);
+        acts.push(Act::Auto("CREATE TABLE u (a BIGINT, b TEXT)".into(), vec![], vec![]));
+        for i in 0..30 {
+            acts.push(Act::Auto(format!("INSERT INTO u VALUES ({}, '{}')", i, "q".repeat(300)), vec![], vec![]));
+        }
+        let mut next_id = 1i64;
+        for _ in 0..r.range(2, 5) {
+            let p = format!("a{}{}", next_id, payload(r, sh.row_bytes));
+            acts.push(Act::Auto(format!("INSERT INTO t VALUES ({}, '{}')", next_id, p), vec![(next_id, p)], vec![]));
+            next_id += 1;
+        }
+        acts.push(Act::Flush);
+        let mut sid = 0;
+        for _ in 0..sh.steps {
+            if r.chance(1, 2) {
+                sid += 1;
+                acts.push(Act::Begin(sid));
+                for _ in 0..r.range(1, 3) {
+                    let p = format!("t{}v{}{}", sid, next_id, payload(r, sh.row_bytes));
+                    acts.push(Act::In(sid, format!("INSERT INTO t VALUES ({}, '{}')", next_id, p), vec![(next_id, p)], vec![]));
+                    next_id += 1;
+                    if r.chance(2, 3) {
+                        acts.push(scan());
+                    }
+                }
+                acts.push(if r.chance(3, 5) { Act::Rollback(sid) } else { Act::Commit(sid) });
+            } else if r.chance(1, 2) {
+                let p = format!("a{}{}", next_id, payload(r, sh.row_bytes));
+                acts.push(Act::Auto(format!("INSERT INTO t VALUES ({}, '{}')", next_id, p), vec![(next_id, p)], vec![]));
+                next_id += 1;
+            } else {
+                acts.push(scan());
+            }
+        }
+        return acts;
+    }
     let mut next_id = 1i64;
     let mut live: Vec<i64> = vec![]; // committed ids (model's view while generating)
     let mut sid = 0usize;
@@ -158,6 +201,17 @@ pub fn gen_history(r: &mut Rng, sh: &Shape) -> Vec<Act> {
             }
             acts.push(Act::Auto(format!("INSERT INTO t VALUES {}", vals.join(", ")), ins, vec![]));
         }
+    }
+    if sh.ddl {
+        // DDL at the end, bracketed by checkpoints: the crash points inside the last checkpoint are the ones where the
+        // data file already holds the new objects while the log still describes their creation (open finding elsewhere:
+        // redo of INSERTs into a unique index is not idempotent, so no DML follows the index creation here)
+        acts.push(Act::Flush);
+        acts.push(Act::Auto("CREATE UNIQUE INDEX ix_t_id ON t(id)".into(), vec![], vec![]));
+        if r.chance(1, 2) {
+            acts.push(Act::Auto("CREATE TABLE u (a BIGINT, b TEXT)".into(), vec![], vec![]));
+        }
+        acts.push(Act::Flush);
     }
     // half of the sessions still open are finished, the others stay open at the end of the history (their rows must never appear)
     for (rest, _, _) in open {
@@ -465,6 +519,7 @@ pub fn enumerate(rec: &Recorded, check: &str, shape: &Shape, seed_tag: &str, nes
     // (it writes those rows to the data file and truncates the log that could undo them)
     let mut open_writers: std::collections::BTreeSet<usize> = Default::default();
     let mut ckpt_with_uncommitted = false;
+    let mut last_call = 0usize;
     let mut open_idle: std::collections::BTreeSet<usize> = Default::default();
     let script: Vec<String> = rec.acts.iter().map(|a| a.show()).collect();
     let mut k = 0usize;
@@ -472,6 +527,7 @@ pub fn enumerate(rec: &Recorded, check: &str, shape: &Shape, seed_tag: &str, nes
         match ev {
             Ev::Call(n) => {
                 inflight = Some(*n);
+                last_call = *n;
                 match rec.acts.get(*n) {
                     Some(Act::Flush) => {
                         seen_ckpt = true;
@@ -614,7 +670,8 @@ pub fn enumerate(rec: &Recorded, check: &str, shape: &Shape, seed_tag: &str, nes
                     let extra_all: Vec<i64> = c.iter().filter(|(id, s)| acked.get(id) != Some(s) && best.get(id) != Some(s)).map(|(id, _)| *id).collect();
                     // a row whose DELETE was acknowledged and that is back is a lost acknowledged effect (C01), not an unacknowledged one
                     let resurrected: Vec<i64> = extra_all.iter().cloned().filter(|id| acked_deleted.contains(id)).collect();
-                    let extra: Vec<i64> = extra_all.iter().cloned().filter(|id| !acked_deleted.contains(id)).collect();
+                    // an acknowledged row that came back with other bytes is damaged acknowledged data (already in `missing`), not foreign data
+                    let extra: Vec<i64> = extra_all.iter().cloned().filter(|id| !acked_deleted.contains(id) && !acked.contains_key(id)).collect();
                     let mut missing = missing;
                     missing.extend(resurrected.iter().cloned());
                     // a partially applied in-flight transaction shows as extra rows that are a strict subset of it
@@ -629,8 +686,8 @@ pub fn enumerate(rec: &Recorded, check: &str, shape: &Shape, seed_tag: &str, nes
                         report::count("class.unacked-visible", 1);
                         if check == "C02" {
                             // who wrote the extra rows: rolled back, open, or partial in-flight
-                            let who = extra_origin(rec, &extra, inflight);
-                            let sig = if shape.dirty { format!("C02:unacked-visible:[shape.{}]", shape.name) } else if ckpt_with_uncommitted { "C02:unacked-visible:[ckpt-with-uncommitted-writes]".to_string() } else if in_ckpt { "C02:unacked-visible:crash-inside-checkpoint".to_string() } else { format!("C02:unacked-visible:{}:{}:[{}]", who, phase, feat) };
+                            let who = extra_origin(rec, &extra, inflight, last_call);
+                            let sig = if shape.dirty && !shape.clean_c02 { format!("C02:unacked-visible:{}:[shape.{}]", who, shape.name) } else if ckpt_with_uncommitted { "C02:unacked-visible:[ckpt-with-uncommitted-writes]".to_string() } else if in_ckpt { "C02:unacked-visible:crash-inside-checkpoint".to_string() } else { format!("C02:unacked-visible:{}:{}:[{}]", who, phase, feat) };
                             report::violation(&sig, &format!("image after mutation {} ({}): rows {:?}… are visible but were never acknowledged ({})", k, phase, &extra[..extra.len().min(5)], who), case());
                         }
                     }
@@ -640,7 +697,7 @@ pub fn enumerate(rec: &Recorded, check: &str, shape: &Shape, seed_tag: &str, nes
                 report::count("class.open-failed", 1);
                 if check == "C08" {
                     let what = if matches!(opened, Opened::OpenFailed(_)) { "open-failed" } else { "unreadable-after-open" };
-                    let sig = if shape.dirty { format!("C08:{}:[shape.{}]", what, shape.name) } else if ckpt_with_uncommitted { format!("C08:{}:[ckpt-with-uncommitted-writes]", what) } else if in_ckpt { format!("C08:{}:crash-inside-checkpoint", what) } else { format!("C08:{}:{}:{}:[{}]", what, err_kind(e), phase, feat) };
+                    let sig = if shape.dirty { format!("C08:{}:[shape.{}]", what, shape.name) } else if ckpt_with_uncommitted { format!("C08:{}:{}:[ckpt-with-uncommitted-writes]", what, err_kind(e)) } else if in_ckpt { format!("C08:{}:crash-inside-checkpoint:{}", what, err_kind(e)) } else { format!("C08:{}:{}:{}:[{}]", what, err_kind(e), phase, feat) };
                     report::violation(&sig, &format!("image after mutation {} ({}): {}", k, phase, e), case());
                 }
             }
@@ -654,18 +711,23 @@ pub fn enumerate(rec: &Recorded, check: &str, shape: &Shape, seed_tag: &str, nes
     rm_dir(&img_root);
 }
 
-fn extra_origin(rec: &Recorded, extra: &[i64], inflight: Option<usize>) -> &'static str {
+fn extra_origin(rec: &Recorded, extra: &[i64], inflight: Option<usize>, upto: usize) -> &'static str {
     // find the act that inserted the first extra id
     let id = extra[0];
     for (i, a) in rec.acts.iter().enumerate() {
         match a {
             Act::In(s, _, ins, _) if ins.iter().any(|(x, _)| *x == id) => {
                 // how did that session end?
-                for b in &rec.acts[i..] {
+                if rec.acked_ok.get(i) == Some(&false) {
+                    return "failed-statement"; // the statement returned an error, its rows must never show
+                }
+                // only what had been called by the crash point counts
+                let last = upto.max(i).min(rec.acts.len() - 1);
+                for (j, b) in rec.acts.iter().enumerate().take(last + 1).skip(i) {
                     match b {
-                        Act::Rollback(s2) if s2 == s => return "rolled-back",
+                        Act::Rollback(s2) if s2 == s => return if inflight == Some(j) { "rollback-in-flight" } else { "rolled-back" },
                         Act::Commit(s2) if s2 == s => {
-                            return if inflight.map(|n| matches!(&rec.acts[n], Act::Commit(x) if x == s)).unwrap_or(false) { "partial-in-flight" } else { "not-yet-committed" };
+                            return if inflight == Some(j) { "partial-in-flight" } else if rec.acked_ok.get(j) == Some(&false) { "commit-failed" } else { "committed-later-state" };
                         }
                         _ => {}
                     }
@@ -744,15 +806,17 @@ fn summary(o: &Opened) -> String {
 
 pub fn shapes() -> Vec<Shape> {
     vec![
-        Shape { dirty: false, name: "small-autocommit", steps: 14, row_bytes: &[8, 40], sessions: false, rollback: false, deletes: true, flush: false, vacuum: false, cache: 10000, interleave: false },
-        Shape { dirty: false, name: "sessions-commit", steps: 12, row_bytes: &[8, 60], sessions: true, rollback: false, deletes: true, flush: false, vacuum: false, cache: 10000, interleave: false },
-        Shape { dirty: false, name: "sessions-rollback", steps: 12, row_bytes: &[8, 60], sessions: true, rollback: true, deletes: false, flush: false, vacuum: false, cache: 10000, interleave: false },
-        Shape { dirty: false, name: "with-checkpoints", steps: 14, row_bytes: &[8, 60], sessions: true, rollback: false, deletes: true, flush: true, vacuum: false, cache: 10000, interleave: false },
-        Shape { dirty: false, name: "interleaved-sessions", steps: 16, row_bytes: &[8, 60], sessions: true, rollback: true, deletes: true, flush: true, vacuum: false, cache: 10000, interleave: true },
-        Shape { dirty: false, name: "checkpoint-between-begin-and-write", steps: 14, row_bytes: &[8, 60], sessions: true, rollback: true, deletes: true, flush: false, vacuum: false, cache: 10000, interleave: true },
-        Shape { dirty: true, name: "long-log", steps: 60, row_bytes: &[600, 1200], sessions: false, rollback: false, deletes: false, flush: false, vacuum: false, cache: 10000, interleave: false },
-        Shape { dirty: true, name: "small-cache-steal", steps: 40, row_bytes: &[300, 900], sessions: true, rollback: true, deletes: false, flush: false, vacuum: false, cache: 16, interleave: false },
-        Shape { dirty: true, name: "with-vacuum", steps: 14, row_bytes: &[8, 60], sessions: true, rollback: false, deletes: true, flush: true, vacuum: true, cache: 10000, interleave: false },
+        Shape { dirty: false, name: "small-autocommit", steps: 14, row_bytes: &[8, 40], sessions: false, rollback: false, deletes: true, flush: false, vacuum: false, cache: 10000, interleave: false, ddl: false, clean_c02: false },
+        Shape { dirty: false, name: "sessions-commit", steps: 12, row_bytes: &[8, 60], sessions: true, rollback: false, deletes: true, flush: false, vacuum: false, cache: 10000, interleave: false, ddl: false, clean_c02: false },
+        Shape { dirty: false, name: "sessions-rollback", steps: 12, row_bytes: &[8, 60], sessions: true, rollback: true, deletes: false, flush: false, vacuum: false, cache: 10000, interleave: false, ddl: false, clean_c02: false },
+        Shape { dirty: false, name: "with-checkpoints", steps: 14, row_bytes: &[8, 60], sessions: true, rollback: false, deletes: true, flush: true, vacuum: false, cache: 10000, interleave: false, ddl: false, clean_c02: false },
+        Shape { dirty: false, name: "interleaved-sessions", steps: 16, row_bytes: &[8, 60], sessions: true, rollback: true, deletes: true, flush: true, vacuum: false, cache: 10000, interleave: true, ddl: false, clean_c02: false },
+        Shape { dirty: false, name: "checkpoint-between-begin-and-write", steps: 14, row_bytes: &[8, 60], sessions: true, rollback: true, deletes: true, flush: false, vacuum: false, cache: 10000, interleave: true, ddl: false, clean_c02: false },
+        Shape { dirty: false, name: "with-ddl", steps: 8, row_bytes: &[8, 60], sessions: true, rollback: false, deletes: false, flush: false, vacuum: false, cache: 10000, interleave: false, ddl: true, clean_c02: false },
+        Shape { dirty: false, name: "steal-and-rollback", steps: 10, row_bytes: &[8, 40], sessions: true, rollback: true, deletes: false, flush: false, vacuum: false, cache: 6, interleave: false, ddl: false, clean_c02: true },
+        Shape { dirty: true, name: "long-log", steps: 60, row_bytes: &[600, 1200], sessions: false, rollback: false, deletes: false, flush: false, vacuum: false, cache: 10000, interleave: false, ddl: false, clean_c02: false },
+        Shape { dirty: true, name: "small-cache-steal", steps: 40, row_bytes: &[300, 900], sessions: true, rollback: true, deletes: false, flush: false, vacuum: false, cache: 16, interleave: false, ddl: false, clean_c02: false },
+        Shape { dirty: true, name: "with-vacuum", steps: 14, row_bytes: &[8, 60], sessions: true, rollback: false, deletes: true, flush: true, vacuum: true, cache: 10000, interleave: false, ddl: false, clean_c02: false },
     ]
 }
 
@@ -770,6 +834,7 @@ pub fn run(check: &str, seed: u64, tier: &str, shard: u64, only_shape: Option<&s
             let mut r = master.fork(h * 131 + fnv(sh.name.as_bytes()) % 1000);
             let acts = gen_history(&mut r, &sh);
             let cfg = cfg(4096, sh.cache, 8, 3, 2);
+            report::about_to(&format!("e1-{}", sh.name), &format!("seed {} shard {} history {}", seed, shard, h));
             report::arm(&format!("{} record {}", check, sh.name), 300);
             let rec = record(&acts, cfg);
             report::disarm();
@@ -781,6 +846,7 @@ pub fn run(check: &str, seed: u64, tier: &str, shard: u64, only_shape: Option<&s
             report::arm(&format!("{} enumerate {}", check, sh.name), 900);
             enumerate(&rec, check, &sh, &format!("{}|{}|{}|{}", seed, shard, sh.name, h), &mut nested_budget);
             report::disarm();
+            report::done_with();
             if h == 0 {
                 report::sample(4, || J::obj().with("shape", sh.name).with("history_head", J::Arr(rec.acts.iter().take(6).map(|a| J::Str(a.show())).collect())).with("mutations", rec.muts.len()).with("every_prefix_opened", true));
             }
